@@ -205,7 +205,7 @@ Definition lstep (s : lstate) (o : vop) : option (lstate * ret) :=
   | VErase p => if p <? n then Some (set_cur_l s (erase_spec p (S p) l), RNum p) else None
   | VEraseR a b => if ((a <=? b) && (b <=? n))%bool then Some (set_cur_l s (erase_spec a b l), RNum a) else None
   | VResize k x => Some (set_cur_l s (resize_spec k x l), RNone)
-  | VReserve _ => Some (s, RNone)
+  | VReserve _ => Some (set_cur_l s l, RNone)
   | VClear => Some (set_cur_l s [], RNone)
   | VAssignR src => Some (set_cur_l s src, RNone)
   | VAt i => Some (s, if i <? n then RNum (nth i l 0) else ROor)
